@@ -814,6 +814,93 @@ def c17(rac, units, tier, seed):
 STANDINS["C17"] = c17
 
 
+_LIT = re.compile(r"^([+-]?)(\d*)(?:\.(\d*))?(?:[eE]([+-]?)(\d*))?$")
+
+
+def lit_oracle(t):
+    """the number a decimal literal spells (independent of /repo): sign? D* ('.' D*)? ([eE] sign? D*)?  -> Fraction | None"""
+    m = _LIT.match(t)
+    if not m or not t.isascii():
+        return None
+    sign, ip, fp, es, ed = m.groups()
+    v = F(int(ip or "0")) + (F(int(fp), 10 ** len(fp)) if fp else F(0))
+    e = int(ed or "0")
+    if e > 4000:
+        return "huge"
+    v *= F(10) ** (-e if es == "-" else e)
+    return -v if sign == "-" else v
+
+
+def c07(rac, units, tier, seed):
+    k = 5 if tier == "quick" else 7
+    rep = Report("C07 str::parse::<Rational> and the NUMBER / PERCENTAGE arms of eval()", f"every string of <= {k} characters over the alphabet 0 1 9 + - . e E (exhaustive) given to the library parser; those the lexer reads as one NUMBER token also as queries (with and without %); seeded random long literals (<= 90 digits, zero-rich); oracle: an independent regex/Fraction reading of the grammar")
+    rnd = random.Random(seed)
+    alpha = "019+-.eE"
+    strings = []
+    for L in range(0, k + 1):
+        strings += ["".join(c) for c in itertools.product(alpha, repeat=L)]
+    ans = rac.ask_many([{"cmd": "rational", "s": t} for t in strings], chunk=2000)
+    accepted = []
+    for t, a in zip(strings, ans):
+        exp = lit_oracle(t)
+        rep.ran(t, exp is not None, dict(literal=t, expected=str(exp)) if exp is not None and len(t) == k else None)
+        if "panic" in a:
+            rep.fail("number parser panicked", query=f"parse {t!r}", expected=str(exp), actual=a["panic"][:100])
+        elif exp is None:
+            if "ok" in a:
+                rep.fail("a string that is not a literal was accepted", query=f"parse {t!r}", expected="error", actual=str(frac_of(dict(value=a["ok"]))))
+        elif exp == "huge":
+            continue
+        else:
+            if "ok" not in a:
+                rep.fail("a literal of the language was rejected", query=f"parse {t!r}", expected=str(exp), actual=json.dumps(a)[:100])
+            else:
+                got = frac_of(dict(value=a["ok"]))
+                if got != exp:
+                    rep.fail("literal read as a different number", query=f"parse {t!r}", expected=str(exp), actual=str(got))
+                accepted.append((t, exp))
+    # long literals
+    longs = []
+    for _ in range(400 if tier == "quick" else 6000):
+        n1, n2 = rnd.randint(0, 60), rnd.choice([0, 0, rnd.randint(1, 30)])
+        digs = lambda n: "".join(rnd.choice("0000123456789") for _ in range(n))
+        t = rnd.choice(["", "-", "+"]) + digs(n1) + ("." + digs(n2) if n2 or rnd.random() < 0.2 else "")
+        if rnd.random() < 0.4:
+            t += rnd.choice("eE") + rnd.choice(["", "-", "+"]) + str(rnd.randint(0, 40)).zfill(rnd.randint(1, 4))
+        longs.append(t)
+    longs += ["1" + "0" * n for n in range(15, 45)] + ["9" * 17 + "0" * n + "5" for n in range(0, 8)] + ["0." + "0" * n + "1" for n in range(15, 45)] + ["1e4294967296", "1e-4294967296", "1e00000000000000000005"]
+    ans = rac.ask_many([{"cmd": "rational", "s": t} for t in longs])
+    for t, a in zip(longs, ans):
+        exp = lit_oracle(t)
+        rep.ran(t, True)
+        if exp == "huge":
+            if t in ("1e4294967296", "1e-4294967296") and "ok" in a:
+                rep.fail("exponent beyond u32 accepted", query=f"parse {t!r}", expected="error", actual="ok")
+            continue
+        if "ok" not in a or frac_of(dict(value=a["ok"])) != exp:
+            rep.fail("long literal read as a different number", query=f"parse {t!r}", expected=str(exp), actual=json.dumps(a)[:160])
+    # the same literals written as queries (NUMBER / PERCENTAGE arms): only spellings the lexer reads as one NUMBER token
+    qs = [(t, exp) for t, exp in accepted if t and t[0] not in "+-" and t[0] != "e" and t[0] != "E"][: (4000 if tier == "quick" else 40000)]
+    qs += [(t, lit_oracle(t)) for t in longs if t and t[0].isdigit() and lit_oracle(t) not in (None, "huge")][:300]
+    lexed = rac.ask_many([{"cmd": "lex", "s": t} for t, _ in qs], chunk=2000)
+    todo = []
+    for (t, exp), lx in zip(qs, lexed):
+        toks = lx.get("tokens", [])
+        if len(toks) == 1 and toks[0][1] == "NUMBER":
+            todo.append((t, exp))
+            todo.append((t + "%", exp / 100))
+    ans = rac.ask_many([{"cmd": "query", "q": t} for t, _ in todo], chunk=2000)
+    for (t, exp), a in zip(todo, ans):
+        st = single_value(a)
+        rep.ran("q:" + t, True)
+        if st[0] != "ok" or st[1] != exp:
+            rep.fail("literal written as a query denotes a different number than the library parser gives", query=t, expected=str(exp), actual=str(st[1]) if len(st) > 1 else st[0])
+    return [rep]
+
+
+STANDINS["C07"] = c07
+
+
 def register(prop):
     def deco(fn):
         STANDINS[prop] = fn
